@@ -2735,6 +2735,8 @@ static Type *struct_decl(Token **rest, Token *tok) {
     } else {
       if (!ty->is_packed)
         bits = align_to(bits, mem->align * 8);
+      else
+        bits = align_to(bits, 8);
       mem->offset = bits / 8;
       bits += mem->ty->size * 8;
     }
